@@ -28,10 +28,31 @@ def mc_strainsvec(res, dom, maxpush, tier, tag):
     return scen
 
 
+SIGNALS = {4: "SIGILL", 6: "SIGABRT", 7: "SIGBUS", 8: "SIGFPE", 11: "SIGSEGV"}
+
+
+def run_or_crash(res, what, binp, args, **kw):
+    """run_harness for C11: a harness process killed by SIGSEGV / SIGABRT / ... while it drives the code under test IS the
+    observation the property is about (an invalid memory access, or an abort of a checked precondition), not a tool error"""
+    p = common.run_harness(binp, args, check=False, **kw)
+    if p.returncode < 0 and -p.returncode in SIGNALS:
+        res.violation("%s: the process was killed by %s while driving the code under test: %s" % (what, SIGNALS[-p.returncode], (p.stdout or "")[-600:]),
+                      {"kind": "crash", "what": what, "signal": SIGNALS[-p.returncode], "args": args[:1], "output": (p.stdout or "")[-3000:]})
+        return None
+    if p.returncode != 0:
+        raise common.ToolError("harness %s failed (%d):\n%s" % (args[0], p.returncode, (p.stdout or "")[-4000:]))
+    return p
+
+
 def replay_strainsvec(res, scen, features, prop):
     binp = common.build_harness(features)
     outp = scen + ".%s.res.json" % (features.replace(",", "-") or "default")
-    p = common.run_harness(binp, ["strainsvec-replay", scen, outp])
+    if prop == "C11":
+        p = run_or_crash(res, "StrainsVec replay [%s build]" % (features or "default"), binp, ["strainsvec-replay", scen, outp])
+        if p is None:
+            return
+    else:
+        p = common.run_harness(binp, ["strainsvec-replay", scen, outp])
     log(p.stdout.strip().splitlines()[-1])
     out = json.load(open(outp))
     if out.get("degraded"):
@@ -215,7 +236,9 @@ def run_c11(tier):
         for fs in ["", "sync"]:
             binp = common.build_harness(fs)
             outp = scen + ".%s.res.json" % (fs or "default")
-            p = common.run_harness(binp, ["lifecycle-replay", scen, outp], timeout=7200)
+            p = run_or_crash(res, "gradual calculator lifecycles [%s build]" % (fs or "default"), binp, ["lifecycle-replay", scen, outp], timeout=7200)
+            if p is None:
+                continue
             log(p.stdout.strip().splitlines()[-1])
             out = json.load(open(outp))
             res.cov["traces_validated_against_impl"] += out["scenarios"]
@@ -229,13 +252,14 @@ def run_c11(tier):
     # decoder scratch buffer: every decode in a dedicated pass with slider paths of failing lines (replayed through C06 pools)
     binp = common.build_harness("")
     outp = os.path.join(common.OUT, "pathbuf_%s_%d.json" % (tier, pid))
-    p = common.run_harness(binp, ["pathbuf-replay", outp, "--tier", tier])
-    log(p.stdout.strip().splitlines()[-1])
-    out = json.load(open(outp))
-    res.cov["traces_validated_against_impl"] += out["cases"]
-    for rec in out["records"][:6]:
-        res.violation("decoder slider-path scratch buffers: %s: %s" % (rec["what"], rec["text"][:400]), {"kind": "pathbuf", "record": rec})
-    os.remove(outp)
+    p = run_or_crash(res, "decoder slider-path scratch buffers", binp, ["pathbuf-replay", outp, "--tier", tier])
+    if p is not None:
+        log(p.stdout.strip().splitlines()[-1])
+        out = json.load(open(outp))
+        res.cov["traces_validated_against_impl"] += out["cases"]
+        for rec in out["records"][:6]:
+            res.violation("decoder slider-path scratch buffers: %s: %s" % (rec["what"], rec["text"][:400]), {"kind": "pathbuf", "record": rec})
+        os.remove(outp)
     if tier == "thorough":
         miri(res)
     native_driver(res)
